@@ -633,3 +633,5 @@ RENAME_FUNCS = [(ED, 'LookbackEventSequenceEncoderDecoder.events_to_label'), (ED
                 (ED, 'LookbackEventSequenceEncoderDecoder.events_to_input'), (ME, 'KeyMelodyEncoderDecoder.events_to_label'), (ME, 'KeyMelodyEncoderDecoder.class_index_to_event'),
                 (PE, 'NotePerformanceEventSequenceEncoderDecoder._encode_event'), (PE, 'NotePerformanceEventSequenceEncoderDecoder.class_index_to_event'),
                 (ED, 'EventSequenceEncoderDecoder.encode'), (PR, 'PianorollEncoderDecoder.class_index_to_event')]
+
+EXPLANATION += (' Location-independent additions: PIANOROLL/wide-label (no numpy fixed-width operand where the label needs input_size bits), GEN/chord-label-split (C09 rule shared), GEN/full-history (history handed to class_index_to_event complete or bounded by max(distances)).')
